@@ -60,6 +60,13 @@ func (db *DB) Merge() error {
 	mergePath := db.mergePath()
 	// 如果存在上次 merge 的残留目录, 将其删除
 	if _, err := os.Stat(mergePath); err == nil {
+		// RemoveAll 逐个删除目录项, 中途崩溃会留下任意子集: 先单独删除完成标识,
+		// 保证残缺的目录不会在下次启动时被当作已完成的 merge 加载
+		markerName := datafile.GetFileName(mergePath, 0, datafile.MergeFinishedFileSuffix)
+		verifFsEvent("remove", markerName, "")
+		if err := os.Remove(markerName); err != nil && !os.IsNotExist(err) {
+			return err
+		}
 		verifFsEvent("removeall", mergePath, "")
 		if err := os.RemoveAll(mergePath); err != nil {
 			return err
